@@ -235,6 +235,16 @@ func (s *seqCase) setup(caseNo int) {
 				s.wtab[i] = uint32(s.maximum) + 1 + uint32(r.intn(3))
 			}
 		}
+		if !s.maintMode && r.chance(20) {
+			// huge weights: a few evictions carry the eviction-weight statistic past 2^32
+			const big = 1 << 28
+			s.maximum *= big
+			opts.MaximumWeight = s.maximum
+			for i := range s.wtab {
+				s.wtab[i] *= big
+			}
+			s.sum.Dist["cfg_huge_weights"]++
+		}
 		wt := s.wtab
 		opts.Weigher = func(k, v int) uint32 { return wt[idx(k+3*v, len(wt))] }
 	}
